@@ -133,6 +133,11 @@ impl CaseOut {
     pub fn skip(why: &str) -> Self {
         CaseOut { nontrivial: false, outcome: h64(why), steps: 0, verdict: Verdict::Skip(why.to_string()) }
     }
+    /// The case could not be decided (e.g. the subject no longer has the structure the exhaustive family is built on):
+    /// never a violation; the run is reported as not exhaustive and the reason is listed among the observations.
+    pub fn undecided(why: &str) -> Self {
+        CaseOut::skip(&format!("UNDECIDED: {why}"))
+    }
     pub fn fail(key: impl Into<String>, expected: impl Into<String>, observed: impl Into<String>) -> Self {
         let key = key.into();
         CaseOut {
@@ -266,8 +271,12 @@ impl Report {
         self.evaluations.fetch_add(1, Ordering::Relaxed);
         self.steps.fetch_add(out.steps, Ordering::Relaxed);
         match &out.verdict {
-            Verdict::Skip(_) => {
+            Verdict::Skip(why) => {
                 self.skipped.fetch_add(1, Ordering::Relaxed);
+                if why.starts_with("UNDECIDED") {
+                    self.exhaustive.store(false, Ordering::Relaxed);
+                    self.observe(format!("[{section}] {why}"));
+                }
             }
             Verdict::Pass => {}
             Verdict::Fail(f) => {
